@@ -68,7 +68,7 @@ func init() {
 					scanned := false
 					inspect(block, func(m ast.Node) bool {
 						rs, ok := m.(*ast.RangeStmt)
-						if !ok || prog.IdentObj(info, rs.X) != removed {
+						if !ok || derefObj(info, rs.X) != removed {
 							return true
 						}
 						inspect(rs.Body, func(k ast.Node) bool {
@@ -110,7 +110,26 @@ func init() {
 							return true
 						}
 						src := resolveLocal(info, block, c.Args[0])
-						if mc, ok := ast.Unparen(src).(*ast.CallExpr); ok && r.P.CalleeFunc(info, mc) == merge && len(mc.Args) == 1 && prog.IdentObj(info, mc.Args[0]) == iters {
+						sameSlice := func(e ast.Expr) bool {
+							if prog.IdentObj(info, e) == iters {
+								return true
+							}
+							// the scans were collected by an extracted helper that returns its slice
+							if hc, ok := ast.Unparen(resolveLocal(info, block, e)).(*ast.CallExpr); ok {
+								if hf := r.P.FuncInfoOf(r.P.CalleeFunc(info, hc)); isNewHelper(r.P, hf) {
+									same := false
+									ast.Inspect(hf.Decl.Body, func(q ast.Node) bool {
+										if rs, ok := q.(*ast.ReturnStmt); ok && len(rs.Results) == 1 && prog.IdentObj(info, rs.Results[0]) == iters {
+											same = true
+										}
+										return true
+									})
+									return same
+								}
+							}
+							return false
+						}
+						if mc, ok := ast.Unparen(src).(*ast.CallExpr); ok && r.P.CalleeFunc(info, mc) == merge && len(mc.Args) == 1 && sameSlice(mc.Args[0]) {
 							newTables = prog.IdentObj(info, as.Lhs[0])
 						}
 						return true
@@ -396,6 +415,28 @@ func init() {
 				}
 				return true
 			})
+			if !okBase {
+				// the same without a loop: sel = slices.AppendSeq(sel, levels.At(-1).AllTables())
+				inspect(f.Decl.Body, func(nd ast.Node) bool {
+					as, ok := nd.(*ast.AssignStmt)
+					if !ok || len(as.Lhs) != 1 || len(as.Rhs) != 1 || prog.IdentObj(info, as.Lhs[0]) != sel || as.Pos() < outer.End() {
+						return true
+					}
+					c, ok := isCallToNamed(info, as.Rhs[0], "slices", "AppendSeq")
+					if !ok || len(c.Args) != 2 || prog.IdentObj(info, c.Args[0]) != sel {
+						return true
+					}
+					inspect(c.Args[1], func(m ast.Node) bool {
+						if call, ok := m.(*ast.CallExpr); ok && r.P.CalleeFunc(info, call) == at && len(call.Args) == 1 {
+							if tv, ok := info.Types[call.Args[0]]; ok && tv.Value != nil && tv.Value.String() == "-1" {
+								okBase = true
+							}
+						}
+						return true
+					})
+					return true
+				})
+			}
 			if !okBase {
 				r.Fail(f.Name()+":base-included", f.Decl.Pos(), nil, "the base level's tables are not added to the merge")
 			}
